@@ -25,4 +25,23 @@ var props = map[string]*propCfg{
 		Rule: "each run = a generated history of uploads/overwrites/deletes on a real Volume followed by crash points (operation k in flight, byte offset within k's data append or within k's index append; every point for short histories, sampled for longer ones), each materialised by truncating copies of .dat/.idx and reopening through a fresh Store; a run is non-trivial if at least one crash point was explored; distinct = distinct abstract traces (sequence of op kinds and crash situations, payloads erased)",
 		Real: volReal, Stub: []string{"crash = file truncation to a write-order-respecting prefix (no reordered write-back)", "LevelDB directory state at the crash = snapshot after the last complete operation, or lost"},
 		Assume: []string{"crash states are prefixes of the append-only files as the property states", "empty-payload blobs: see known_findings.json"}, CrashIsViolation: true},
+	"C01": {Engine: "volsim", Variants: []string{""}, Quick: 1600, Thorough: 120000, Chunk: 100, QuickWall: 100, ThorWall: 1500,
+		Rule: "each run = a generated history of uploads (incl. identical rewrites, empty payloads in a fraction of runs, batched fsync path), deletes, reads, read-only toggles and clean restarts on a real Store/Volume, checked step by step against a reference map; every third run arms data-file write faults (EIO, ENOSPC, short write, failed sync, failed truncate) inside operations; non-trivial = at least one overwrite, delete, restart or fault; distinct = distinct abstract traces (op kinds and outcomes, payloads erased)",
+		Real: volReal, Stub: []string{"data-file faults injected through a wrapper around Volume.DataBackend (existing interface seam)"},
+		Assume: []string{"cookie checks on read/delete live in the HTTP handlers and are exercised by the cluster engine, not here", "a faulted operation may fail or have taken effect; un-faulted operations must match the model exactly"}},
+	"C02": {Engine: "volsim", Variants: []string{""}, Quick: 1200, Thorough: 60000, Chunk: 100, QuickWall: 100, ThorWall: 1200,
+		Rule: "each run writes blobs (first 512 runs walk boundary lengths x name/mime lengths x flags; versions 2 and 3), scans the data file record by record against the harness's append log (order, count, 8-byte alignment), then flips single bits of stored data bytes and reads; non-trivial = at least one byte flip or scan; distinct = distinct abstract traces",
+		Real: volReal, Stub: []string{"silent corruption = one flipped bit in the data region of a stored record"},
+		Assume: []string{"encode/decode equality over all flag and length combinations is a pure function and only sampled here", "only bytes of the data region are covered by the record checksum; metadata bytes are not flipped"}},
+	"C04": {Engine: "volsim", Variants: []string{""}, Quick: 1200, Thorough: 80000, Chunk: 60, QuickWall: 120, ThorWall: 1500,
+		Rule: "each run = 1-3 compaction rounds on a real volume with a twin volume that receives the same operations and is never compacted; Compact/Compact2 run in their own goroutine parked by the scheduler at yield points (after the index snapshot, at each visited needle, before the commit lock) while uploads/deletes/clock moves are released; after every commit all keys are read on both volumes at the same fake instant; non-trivial = at least one compaction started; distinct = distinct abstract traces",
+		Real: append(volReal, "Volume.Compact, Compact2, CommitCompact, makeupDiff, cleanupCompact"), Stub: []string{},
+		Assume: []string{"interleavings are at the granularity of the H2 yield points (lock-free places) and operation boundaries"}},
+	"C05": {Engine: "volsim", Variants: []string{"", "5BytesOffset"}, Quick: 800, Thorough: 40000, Chunk: 100, QuickWall: 100, ThorWall: 1200,
+		Rule: "each run = uploads/overwrites/deletes/reads through the volume over adversarial key orders (ascending, descending, far apart across 32-bit sections, random with repeats; occasionally hundreds of keys) with clean restarts; lookups compared with a reference map, FileCount/DeletedCount/ContentSize/DeletedSize/MaxFileKey compared before and after each reload; memory and LevelDB maps; built twice (default and 5BytesOffset); non-trivial = at least one restart; distinct = distinct abstract traces",
+		Real: volReal, Stub: []string{}, Assume: []string{"offsets beyond 32 bits are not produced (would need > 32 GiB sparse files)"}},
+	"C09": {Engine: "volsim", Variants: []string{""}, Quick: 1500, Thorough: 100000, Chunk: 100, QuickWall: 100, ThorWall: 1500,
+		Rule: "each run = uploads with TTLs over all units (blob TTL equal to / different from / without a volume TTL, client-supplied timestamps), fake-clock jumps landing around expiry instants, reads, both compaction algorithms and heartbeat-driven volume expiry at chosen instants, on a real Store; model: readable iff now < append time + TTL; non-trivial = at least one clock move; distinct = distinct abstract traces",
+		Real: append(volReal, "Store.CollectHeartbeat (volume expiry)", "compaction"), Stub: []string{"clock = synctest fake clock + tick overlay"},
+		Assume: []string{"reads are placed >= 1 ms away from expiry instants", "the filer-side clause (volume TTL >= entry TTL) is checked by the cluster engine"}},
 }
